@@ -284,17 +284,23 @@ Proof.
   destruct (fully_accepted r1); [apply (nn_rget _ _ _ Hn Hg) | cbn; lia].
 Qed.
 
+Lemma paid_sum_nn froms l rest d :
+  Forall coins_nn l -> (forall k r, In (k, r) rest -> rget k l = Some r) -> 0 <= paid_sum froms rest d.
+Proof.
+  intros Hn. induction rest as [|[k1 r1] rest IH]; intros Hall; [cbn; lia|].
+  cbn [paid_sum fold_right snd]. fold (paid_sum froms rest d).
+  pose proof (acc_paid_nn l k1 r1 froms d Hn (Hall k1 r1 (or_introl eq_refl))).
+  assert (0 <= paid_sum froms rest d); [|lia]. apply IH. intros k r Hin. apply Hall. right. exact Hin.
+Qed.
+
 Lemma paid_sum_ge froms l rest k r d :
   Forall coins_nn l -> (forall k r, In (k, r) rest -> rget k l = Some r) -> In (k, r) rest ->
   amt (acc_paid froms r) d <= paid_sum froms rest d.
 Proof.
   intros Hn. induction rest as [|[k0 r0] rest IH]; intros Hall Hin; [destruct Hin|].
   cbn [paid_sum fold_right snd]. fold (paid_sum froms rest d).
-  assert (Hrest : forall k r, In (k, r) rest -> rget k l = Some r) by (intros; apply Hall; right; assumption).
-  assert (H0 : 0 <= paid_sum froms rest d).
-  { clear IH Hin. induction rest as [|[k1 r1] rest IH]; [cbn; lia|]. cbn [paid_sum fold_right snd]. fold (paid_sum froms rest d).
-    pose proof (acc_paid_nn l k1 r1 froms d Hn (Hrest k1 r1 (or_introl eq_refl))).
-    assert (0 <= paid_sum froms rest d); [|lia]. apply IH. intros; apply Hrest; right; assumption. }
+  assert (Hrest : forall k r, In (k, r) rest -> rget k l = Some r) by (intros k' r' Hi; apply Hall; right; exact Hi).
+  pose proof (paid_sum_nn froms l rest d Hn Hrest) as H0.
   destruct Hin as [Hin|Hin].
   - injection Hin as <- <-. lia.
   - pose proof (acc_paid_nn l k0 r0 froms d Hn (Hall k0 r0 (or_introl eq_refl))). specialize (IH Hrest Hin). lia.
@@ -416,7 +422,7 @@ Lemma accept_sharp s to froms perm s' rel :
   wf s' /\ s_xfer s' = s_xfer s /\ (idx_sound s -> idx_sound s') /\ (recs_nn s -> recs_nn s') /\
   (forall k, ~ In k (map fst (get_records s to froms)) -> rget k (s_recs s') = rget k (s_recs s)) /\
   (forall k r, In (k, r) (get_records s to froms) -> rget k (s_recs s') = acc_res s to froms r) /\
-  (forall d, amt rel d = paid_sum h froms (get_records s to froms) d).
+  (forall d, amt rel d = paid_sum froms (get_records s to froms) d).
 Proof.
   intros Hw. unfold accept. destruct froms as [|f0 fr] eqn:Ef; [discriminate|]. rewrite <- Ef.
   destruct (fold_left _ _ _) as [[s1 rel1]|] eqn:Efold; [|discriminate]. intros [= <- <-].
